@@ -101,7 +101,7 @@ Section DecMono.
     destruct (read_var_i32 (d_rd D) s) as [[n s1] | e | p | ]; try apply ole_refl.
     destruct (n =? -1)%Z.
     - apply dec_unknown_mono; assumption.
-    - apply dec_known_mono; assumption.
+    - destruct (n <? 0)%Z; [apply ole_refl|]. apply dec_known_mono; assumption.
   Qed.
 
   Lemma in_chunk_mono {A} : forall ad chunk (b b' : St -> outcome (A * St)) s,
